@@ -253,21 +253,34 @@ func ruleVMEmitMust(c *Ctx) []Obligation {
 		for pi, tr := range u.trs {
 			p := u.paths[pi]
 			for _, e := range tr {
-				if e.kind != emEmit || e.ctor == nil {
+				if e.kind != emEmit {
 					continue
 				}
-				// constructor with a value.Value parameter
-				sig := e.ctor.Type().(*types.Signature)
+				// the operand of type value.Value: by the constructor's signature when the operands are the
+				// constructor's arguments, otherwise (composite literal, wrapper constructor) by its type
 				vi := -1
-				nonOp := 0
-				for i := 0; i < sig.Params().Len(); i++ {
-					if types.Identical(sig.Params().At(i).Type(), r.opType) {
-						continue
+				if e.ctor != nil {
+					sig := e.ctor.Type().(*types.Signature)
+					nonOp, pv := 0, -1
+					for i := 0; i < sig.Params().Len(); i++ {
+						if types.Identical(sig.Params().At(i).Type(), r.opType) {
+							continue
+						}
+						if valueIface != nil && types.Identical(sig.Params().At(i).Type(), valueIface.Type()) {
+							pv = nonOp
+						}
+						nonOp++
 					}
-					if valueIface != nil && types.Identical(sig.Params().At(i).Type(), valueIface.Type()) {
-						vi = nonOp
+					if nonOp == len(e.args) {
+						vi = pv
 					}
-					nonOp++
+				}
+				if vi < 0 && valueIface != nil {
+					for i, a := range e.args {
+						if t := u.fn.info.TypeOf(a); t != nil && types.Identical(t, valueIface.Type()) {
+							vi = i
+						}
+					}
 				}
 				if vi < 0 || vi >= len(e.args) {
 					continue
